@@ -152,3 +152,11 @@ prop("C05",
      mode="lemma; sets, regions, predicate answers, true means arbitrary (meaning lemma: m in {2,3}, generic facet row)",
      trusted_base=["z3 5.1.0", "induction over rounds (schema)", "H-valid (hypothesis of the property)", "run reaches S = empty (hypothesis)"],
      not_decided=["validity of the regions (C04) and termination", "VOGP_AD is outside C05"])
+
+prop("C01",
+     level_text="Lemma over contracts: from the step contracts proved for the real discarding / pareto_updating / useful_updating bodies of the PaVeBa family (C02/C03), the meaning of the region predicates at the true means (C09/C10) and the hypotheses H-valid / H-nondeg / termination, the invariants (discarded designs keep a dominator among the active ones, incl. same-round discard chains by a rank argument; promoted designs have gap <= eps against every design; candidates have gap <= eps against retired members of P) are preserved by every phase and give both conclusions at S = empty. The arithmetic facts (gap monotone along domination; what 'not coverable' gives for ellipsoid and for rectangle slacks) are separate lemmas.",
+     mode="lemma; sets, regions, predicate answers, true means arbitrary; arithmetic lemmas for (m,K) in {(2,2),(3,3),(2,3)}",
+     trusted_base=["z3 5.1.0", "induction over rounds (schema)", "axiom finite_argmax (one instance)", "axiom rank (H-nondeg, cone with interior)",
+                   "H-valid and termination (hypotheses of the property)"],
+     not_decided=["H-valid itself (C04) and termination", "Auer's instance of the lemma (its step contracts are proved in C02/C03; the run-level lemma is not written)",
+                  "identical zero-width regions (excluded by H-nondeg)"])
